@@ -1,8 +1,8 @@
 #!/bin/bash
-# tools/seedbatch.sh <listfile>: lines "Cxx sNN n pkg"
-while read P S N PKG; do
+# tools/seedbatch.sh <listfile>: lines "Cxx <seed-dir> <pkg-dir-for-demo> <suffix> [race]"
+while read P D PKG SUF RACE; do
   [ -z "$P" ] && continue
-  extra=""; [ "$P $N" = "C17 2" ] && extra="-race"
-  echo "### $P $S/$N"
-  SEED_GOTESTFLAGS=$extra /verif/tools/seedtest.sh $P /tmp/seed-$S/seed/$N $PKG 'Seed|Demo|seed' $N 2>&1 | tail -4
+  extra=""; [ "$RACE" = race ] && extra="-race"
+  echo "### $P $D"
+  SEED_GOTESTFLAGS=$extra /verif/tools/seedtest.sh $P $D $PKG 'Seed|Demo|seed' $SUF 2>&1 | tail -4
 done < "$1"
